@@ -222,7 +222,10 @@ def checked(mod, case):
                     raise v2
                 raise Inconclusive("sympy-InconsistentAssumptions(repeated)")
             raise Inconclusive("sympy-InconsistentAssumptions(transient)")
-        if re.search(r"call[-:](ZeroDivisionError|OverflowError)", v.signature) and isinstance(v.detail, dict):
+        scalar_exc = re.search(r"call[-:](ZeroDivisionError|OverflowError)", v.signature) or (
+            re.search(r"call[-:]TypeError", v.signature) and isinstance(v.detail, dict) and "complex" in str(v.detail.get("error", ""))
+        )  # (-3.0)**2.2 on Python scalars is a complex number, on arrays nan
+        if scalar_exc and isinstance(v.detail, dict):
             text, pt = v.detail.get("text"), v.detail.get("point")
             undefined = False
             try:
